@@ -109,8 +109,17 @@ type c15Case struct {
 	Ops    []string       `json:"ops"` // "coalesce i", "resolve j", "recheck"
 }
 
+var c15Types = logenc.NamedTypes(func(t uint16) string { return auparse.AuditMessageType(t).String() })
+
 func c15Pool(r *mon.Rand, corpus []logenc.Group, hostile []string, n int) []logenc.Group {
 	var pool []logenc.Group
+	if r.Chance(1, 2) {
+		// several events of ONE first record type with different syscalls: they share that type's normalisation entry
+		typ := mon.Pick(r, c15Types)
+		for i, m := 0, r.Range(2, 4); i < m; i++ {
+			pool = append(pool, logenc.GenTypedCompound(r, typ))
+		}
+	}
 	for len(pool) < n {
 		switch r.Intn(10) {
 		case 0, 1:
@@ -275,6 +284,12 @@ func c15Concurrent(c *mon.Ctx) {
 	for len(pool) < c.Pick(400, 4000) {
 		pool = append(pool, logenc.GenSyscallGroup(r, logenc.EventOpts{Mode: -1}))
 	}
+	// every named record type as the first record of compound events with three different syscalls
+	for _, typ := range c15Types {
+		for i := 0; i < 3; i++ {
+			pool = append(pool, logenc.GenTypedCompound(r, typ))
+		}
+	}
 	// sequential reference
 	ref := make([]string, len(pool))
 	for i := range pool {
@@ -314,7 +329,7 @@ func c15Concurrent(c *mon.Ctx) {
 func init() {
 	register(&mon.CheckSpec{
 		ID: "C15", Level: "exploration",
-		Rule: "cases = seeded operation histories over a pool of 6-12 message groups (generated SYSCALL groups and single records with unique values, the repo's 47 recorded events, groups of hostile mutated text): CoalesceMessages(i), the same again, ResolveIDs(e_j) through the global caches (names injected with HardcodeUsers/Groups for determinism), and a re-check of EVERY event returned so far after every operation. Deep copies of Data()/Tags()/ToMapStr() of every input message taken before its first use must equal the values afterwards; a repeated coalesce must give an equal event (JSON + sorted multiset of warning texts); every retained event must equal its own snapshot at every later step. A second phase under the race detector coalesces and resolves different groups from 16 goroutines and compares with the sequential reference. distinct_nontrivial = distinct histories (by pool text and op list) that contain a repeated coalesce or a ResolveIDs while other events are retained.",
+		Rule: "cases = seeded operation histories over a pool of 6-12 message groups (generated SYSCALL groups and single records with unique values, compound events that share one first record type - every named type in turn - with different syscalls, the repo's 47 recorded events, groups of hostile mutated text): CoalesceMessages(i), the same again, ResolveIDs(e_j) through the global caches (names injected with HardcodeUsers/Groups for determinism), and a re-check of EVERY event returned so far after every operation. Deep copies of Data()/Tags()/ToMapStr() of every input message taken before its first use must equal the values afterwards; a repeated coalesce must give an equal event (JSON + sorted multiset of warning texts); every retained event must equal its own snapshot at every later step. A second phase under the race detector coalesces and resolves different groups from 16 goroutines and compares with the sequential reference. distinct_nontrivial = distinct histories (by pool text and op list) that contain a repeated coalesce or a ResolveIDs while other events are retained.",
 		Assumptions: []string{
 			"the ORDER of Event.Warnings is not asserted (they are produced while ranging over maps); warnings are compared as a sorted multiset",
 			"ResolveIDs may change the event it is given; all other retained events and all input messages must stay equal",
